@@ -17,4 +17,6 @@ VARIANTS = [
     # benign
     V('benign-rename-loopvar', M, ("for i in range(len(thetalist)):\n        T = np.dot(T, MatrixExp6(VecTose3(Blist[:, i] * thetalist[i])))", "for joint in range(len(thetalist)):\n        T = np.dot(T, MatrixExp6(VecTose3(Blist[:, joint] * thetalist[joint])))"), 'silent'),
     V('benign-forward-loop', M, ("for i in range(len(thetalist) - 2, -1, -1):\n        T = np.dot(T,MatrixExp6(VecTose3(Blist[:, i + 1] \\\n                                         * -thetalist[i + 1])))\n        Jb[:, i] = np.dot(Adjoint(T), Blist[:, i])", "for k in range(1, len(thetalist)):\n        i = len(thetalist) - 1 - k\n        T = np.dot(T,MatrixExp6(VecTose3(Blist[:, i + 1] \\\n                                         * -thetalist[i + 1])))\n        Jb[:, i] = np.dot(Adjoint(T), Blist[:, i])"), 'silent'),
+    V('fkjoint-named-short-prefix', A, ("jh = self._joint_homes_global[i].TM\n        end_effector_pos = tm(fmr.FKinSpace(jh,\n            self.screw_list[0:6, 0:i+1], theta[0:i+1]))", "jh = self._joint_homes_global[i].TM\n        screws = self.screw_list[0:6, 0:i]\n        end_effector_pos = tm(fmr.FKinSpace(jh, screws, theta[0:i+1]))"), 'fire', 'R17.2'),
+    V('benign-fkjoint-named-prefix', A, ("jh = self._joint_homes_global[i].TM\n        end_effector_pos = tm(fmr.FKinSpace(jh,\n            self.screw_list[0:6, 0:i+1], theta[0:i+1]))", "jh = self._joint_homes_global[i].TM\n        k = i + 1\n        screws = self.screw_list[0:6, 0:k]\n        end_effector_pos = tm(fmr.FKinSpace(jh, screws, theta[0:k]))"), 'silent'),
 ]
